@@ -63,11 +63,27 @@ class _Request:
         self.body = body
 
 
+class TrackedBytes(bytes):
+    """A chunk handed out by a GetObject body whose lifetime is observed: the
+    counter holds the number of such bytes still referenced anywhere (C11:
+    data received from the service and not yet let go)."""
+
+    def __new__(cls, v, counter):
+        o = super().__new__(cls, v)
+        o._counter = counter
+        counter[0] += len(o)
+        return o
+
+    def __del__(self):
+        self._counter[0] -= len(self)
+
+
 class Body:
     """GetObject streaming body: data, a read-size script and an optional
     fault after `fail_after` delivered bytes."""
 
-    def __init__(self, data, read_sizes=None, fail_after=None, exc=None, on_read=None):
+    def __init__(self, data, read_sizes=None, fail_after=None, exc=None, on_read=None, track=None):
+        self._track = track
         self._data = data
         self._pos = 0
         self._read_sizes = list(read_sizes or [])
@@ -87,6 +103,8 @@ class Body:
             n = min(n, self._fail_after - self._pos)
         d = self._data[self._pos:self._pos + n]
         self._pos += len(d)
+        if self._track is not None and d:
+            d = TrackedBytes(d, self._track)
         return d
 
 
@@ -147,6 +165,7 @@ class FakeS3:
         self.validate_params = True
         self.rejected_params = []   # (op, [unknown parameter names]) refused before any request was made
         self.get_script = None     # callable(kwargs, attempt_no) -> dict(read_sizes, fail_after, exc)
+        self.track_get = None      # [n]: bytes handed out by GetObject bodies that are still referenced
         self.on_event = None       # callable(kind, rec) for schedulers (yield points)
         self.inflight = 0
         self.max_inflight = 0
@@ -377,7 +396,7 @@ class FakeS3:
             self._get_attempts[k] = att + 1
         rec['attempt'] = att
         sc = self.get_script(kw, att) if self.get_script else {}
-        body = Body(data, sc.get('read_sizes'), sc.get('fail_after'), sc.get('exc'), sc.get('on_read'))
+        body = Body(data, sc.get('read_sizes'), sc.get('fail_after'), sc.get('exc'), sc.get('on_read'), self.track_get)
         return self._finish(rec, {'Body': body, 'ContentLength': len(data)})
 
     def copy_object(self, CopySource, Bucket, Key, **kw):
